@@ -547,7 +547,11 @@ def rule_ownrun(ctx):
                 if cur == dst and len(pth) > 1:
                     return pth
                 for sid in cfg.succ[cur]:
-                    if (cur, sid) in falsy_edges or sid in runs or sid in clears or sid in seen:
+                    if (cur, sid) in falsy_edges or sid in clears or sid in seen:
+                        continue
+                    # (seed C16_12) the statement that runs the sub-optimizer ends a path — except along the edge
+                    # to an exception handler: there the run did not complete and nothing was recorded for it
+                    if cur in runs and cfg.nodes[sid].kind != "handler":
                         continue
                     if sid in defs and sid != d0:
                         continue
@@ -638,4 +642,91 @@ def rule_ownrun(ctx):
     return r
 
 
-RULES = [rule_threadkey, rule_fresh, rule_ownrun]
+_MUT = {"append", "extend", "insert", "add", "update", "pop", "popitem", "remove", "discard", "clear", "setdefault", "sort", "reverse"}
+
+
+def rule_classstate(ctx):
+    """(seed C16_11) State that belongs to one query lives on the instance.  A mutable container bound at *class*
+    level and mutated through `self.<name>` (append, item store, …) by a method — without the constructor re-binding
+    the name on the instance — is one object shared by every instance of the class and its subclasses: the fresh
+    sub-optimizers a reusable optimizer creates per query, searching on different threads, then append to and poll
+    the same list."""
+    r = RuleResult("C16-CLASSSTATE", "no per-query state in class-level mutable containers", 1)
+    n_cls = 0
+    bad = []
+    for m in ctx.p.modules.values():
+        for cls in (m.classes.values() if isinstance(m.classes, dict) else m.classes):
+            n_cls += 1
+            shared = {}
+            for st in cls.node.body:
+                if isinstance(st, (ast.Assign, ast.AnnAssign)) and getattr(st, "value", None) is not None:
+                    v = st.value
+                    mutable = isinstance(v, (ast.List, ast.Dict, ast.Set, ast.ListComp, ast.DictComp, ast.SetComp)) or \
+                        (isinstance(v, ast.Call) and (dotted(v.func) or "").split(".")[-1] in
+                         ("list", "dict", "set", "defaultdict", "OrderedDict", "Counter", "deque", "oset"))
+                    if not mutable:
+                        continue
+                    tg = st.targets if isinstance(st, ast.Assign) else [st.target]
+                    for t in tg:
+                        if isinstance(t, ast.Name) and not (t.id.startswith("__") and t.id.endswith("__")):
+                            shared[t.id] = st
+            if not shared:
+                continue
+            family = [cls] + cls.all_subclasses()
+            for nm, st in shared.items():
+                rebound_in_init = False
+                for c in cls.mro():
+                    init = c.methods.get("__init__")
+                    if init is not None:
+                        rebound_in_init = any(isinstance(n, ast.Assign) and any(C.unparse(t) == f"self.{nm}" for t in n.targets)
+                                              for n in walk_local(init.node))
+                        break
+                if rebound_in_init:
+                    continue
+                for c in family:
+                    for f in c.methods.values():
+                        for n in walk_local(f.node):
+                            hit = None
+                            if isinstance(n, ast.Call) and isinstance(n.func, ast.Attribute) and n.func.attr in _MUT \
+                                    and C.unparse(n.func.value) == f"self.{nm}":
+                                hit = n
+                            elif isinstance(n, (ast.Assign, ast.AugAssign, ast.Delete)):
+                                tg = n.targets if isinstance(n, (ast.Assign, ast.Delete)) else [n.target]
+                                if any(isinstance(t, ast.Subscript) and C.unparse(t.value) == f"self.{nm}" for t in tg):
+                                    hit = n
+                                if isinstance(n, ast.AugAssign) and C.unparse(n.target) == f"self.{nm}":
+                                    hit = n
+                            if hit is not None:
+                                # a method that first re-binds the name on the instance works on its own object
+                                own = any(isinstance(x, ast.Assign) and any(C.unparse(t) == f"self.{nm}" for t in x.targets)
+                                          and x.lineno < hit.lineno and not C.enclosing_ifs(f, x) for x in walk_local(f.node))
+                                if not own:
+                                    bad.append((cls, nm, st, f, hit))
+    k = "cotengra::C16-CLASSSTATE"
+    if bad:
+        for cls, nm, st, f, hit in bad[:6]:
+            r.violation(f"{cls.module.path}::{cls.name}.{nm}::C16-CLASSSTATE::{f.name}@{hit.lineno - f.node.lineno}", C.loc(f, hit),
+                        f"`{nm}` is bound to a mutable container in the body of class {cls.name} and `{C.unparse(hit, 50)}` in {f.qual} mutates it "
+                        "through `self` without the instance ever getting its own: all instances share one object — concurrent queries "
+                        "through one reusable optimizer (a fresh sub-optimizer each) mix their state")
+    else:
+        r.ok(k, "cotengra", f"{n_cls} classes: no class-level mutable container is mutated through self")
+        if not getattr(ctx, "_is_positive_example", False):
+            src = ctx.p.sources[C.HYPER]
+            r.note(C.positive_example(
+                ctx, rule_classstate,
+                [(C.HYPER, None, src + "\n\nclass _C16ClassStatePositiveExample:\n    pending = []\n\n    def push(self, x):\n        self.pending.append(x)\n")],
+                "_C16ClassStatePositiveExample"))
+    return r
+
+
+def rule_futures(ctx):
+    """Shared with C08-ASSESS fresh-futures (seed C16_11): the list of outstanding pool trials is created afresh by
+    every parallel search."""
+    from .c08 import rule_assess as src
+
+    return C.reuse_rule(ctx, src, "C08-ASSESS", "C16-FUTURES", "outstanding pool trials belong to one search",
+                        lambda i: "fresh-futures" in i.construct, 1)
+
+
+RULES = [rule_classstate, rule_futures, rule_threadkey, rule_fresh, rule_ownrun]
